@@ -104,6 +104,7 @@ func checkSite(c *Ctx, rule string, fn *Fn, sites []*betweenSite, low, target, h
 }
 
 func runC01(c *Ctx) {
+	listFingerprintRule(c)
 	fs := chordFn(c, "LocalNode", "FindSuccessor")
 	sites := fs.betweenSites()
 	s1 := checkSite(c, "interval", fs, sites, pPred, pKey0, pSelf, true, false, "key is in our own range (predecessor, self]")
